@@ -46,6 +46,10 @@ def _needs_quote(name: str) -> bool:
 	- It parses as a number
 	- It collides with Vector/Table reserved method names
 	"""
+	# Names that are not strings (0, 5, ...) are shown through repr()
+	if not isinstance(name, str):
+		return True
+
 	# Always quote empty names
 	if not name:
 		return True
@@ -126,11 +130,11 @@ def _compute_headers(cols, col_indices):
 		col = cols[idx]
 
 		# Display name
-		disp = col._name or ""
+		disp = "" if col._name is None else col._name
 		display_names.append(disp)
 
 		# Sanitized dot name
-		if col._name:
+		if col._name is not None and col._name != "":
 			san = _sanitize_user_name(col._name)
 			if san is None:
 				san = f"col{idx}_"
@@ -165,7 +169,7 @@ def _is_structural_change(display_name: str, sanitized_name: str) -> bool:
 	
 	Returns False if only case changed.
 	"""
-	if not display_name or not sanitized_name:
+	if not isinstance(display_name, str) or not display_name or not sanitized_name:
 		return True
 	
 	# If lowercasing the display name equals sanitized, it's just case change
@@ -182,7 +186,7 @@ def _header_rows(display_names, sanitized_names, dtypes):
 	Returns (header_rows, show_types_in_header) where show_types_in_header indicates
 	whether types are heterogeneous and should be shown in header instead of footer.
 	"""
-	any_display = any(n for n in display_names if n != "...")
+	any_display = any(n != "" for n in display_names if n != "...")
 	
 	# Only show dot-access row if there's a structural change, not just case
 	any_structural_change = any(
@@ -297,7 +301,8 @@ def _repr_vector(v) -> str:
 	# Compute width: max of data and header (if present)
 	data_width = max(len(s) for s in formatted) if formatted else 0
 	header_width = 0
-	if v._name:
+	has_name = v._name is not None and v._name != ""
+	if has_name:
 		header_text = repr(v._name) if _needs_quote(v._name) else v._name
 		header_width = len(header_text)
 	
@@ -312,7 +317,7 @@ def _repr_vector(v) -> str:
 	lines = []
 
 	# Optional vector name
-	if v._name:
+	if has_name:
 		lines.append(header_text.ljust(width) if not v._dtype or v._dtype.kind not in (int, float) else header_text.rjust(width))
 
 	lines.extend(formatted)
